@@ -116,10 +116,16 @@ SELECTORS = {"SchemaObject.instance_type": "selects the OpenAPI type (table chec
 # value-preserving operations allowed on any source -> sink chain (C08.R1b); everything else needs a per-sink reason below
 CARRY_BASE = PLUMBING + [
     r"option::Option::<T>::(map|as_ref|as_deref|cloned|copied|unwrap|expect)$",     # map: the closure body is examined; unwrap/expect fail loudly
-    r"string::String::as_str$", r"string::ToString::to_string$", r"clone::Clone::clone_from$",
+    r"option::Option::<&(mut )?T>::(cloned|copied)$",
+    r"string::String::as_str$", r"string::ToString::to_string$", r"borrow::ToOwned::to_owned$", r"clone::Clone::clone_from$",
+    r"convert::(TryFrom::try_from|TryInto::try_into)$", r"result::Result::<T, E>::(unwrap|expect)$",    # checked conversion, loud on failure
 ]
+# element-wise rebuilding of a collection: iterator chain + collect, or a `for` loop filling an accumulator (same elements, same order)
 _COLLECT = [r"slice::<impl \[T\]>::iter$", r"BTreeMap::<K, V, A>::iter$", r"BTreeSet::<T, A>::iter$", r"option::Option::<T>::iter$",
-            r"iter::Iterator::(map|flat_map|cloned|copied|collect)$"]
+            r"iter::Iterator::(map|flat_map|cloned|copied|collect)$",
+            r"iter::IntoIterator::into_iter$", r"iter::Iterator::next$",
+            r"(vec::Vec::<T>|indexmap::IndexMap::<K, V>|BTreeMap::<K, V>)::(new|with_capacity)$",
+            r"vec::Vec::<T, A>::push$", r"(indexmap::IndexMap::<K, V, S>|BTreeMap::<K, V, A>)::insert$"]
 _RECURSE = [r"^schema_util::j2oas_schema(_object)?$", r"openapiv3::ReferenceOr::<T>::boxed_item$", r"boxed::Box::<T>::new$"]
 _ENUM = _COLLECT + [r"option::Option::<T>::unwrap_or_default$", r"serde_json::Number::as_(i64|f64|u64)$", r"boxed::Box::<T>::new_uninit$", r"boxed::box_assume_init_into_vec_unsafe$"]
 CARRY_EXTRA = {      # sink -> (extra allowed operations, reason)
@@ -141,7 +147,8 @@ CARRY_EXTRA = {      # sink -> (extra allowed operations, reason)
     "SchemaKind::OneOf.one_of": (_COLLECT + _RECURSE, "members converted recursively"),
     "SchemaKind::Not.not": (_RECURSE, "converted recursively"),
     "SchemaData.example": ([r"BTreeMap::<K, V, A>::get$"], "extensions[\"example\"]"),
-    "SchemaData.extensions": (_COLLECT + [r"iter::Iterator::filter$", r"str::<impl str>::starts_with$"], "only keys starting with x- are extensions in OpenAPI"),
+    "SchemaData.extensions": (_COLLECT + [r"iter::Iterator::filter$", r"str::<impl str>::starts_with$", ("ctrl-call", r"str::<impl str>::starts_with$")],
+                              "only keys starting with x- are extensions in OpenAPI (filter closure or `if key.starts_with(..)` in a loop)"),
 }
 
 KIND_TABLE = {"Null": "String", "Boolean": "Boolean", "Object": "Object", "Array": "Array", "Number": "Number", "String": "String", "Integer": "Integer"}
@@ -187,7 +194,7 @@ class _Model:
         self.entry = ctx.need_fn(ds, R, "^" + re.escape(ENTRY) + "$")
         self.entry_obj = ctx.need_fn(ds, R, "^" + re.escape(ENTRY_OBJ) + "$")
         self.region = sorted(ds.region([self.entry.id]))
-        self.flow = Flow(ds, entries=[ENTRY, ENTRY_OBJ])
+        self.flow = Flow(ds, entries=[ENTRY, ENTRY_OBJ], precise=True)
         self.sites = []
         is_sink = lambda a: a.startswith(SINK_PREFIX)
         for fid in self.region:
@@ -277,7 +284,7 @@ def r1_mapping(ctx):
         ok = data in allowed[sink]
         keyok = True
         if ok and data and sink in KEYED:
-            keyok = KEYED[sink] in o.lits
+            keyok = KEYED[sink] in o.lits or _key_on_guard(m, s, KEYED[sink])
         ctx.check(R, "write:%s:%s<-%s" % (fn, sink, "+".join(sorted(data)) or "-"), ok and keyok,
                   "%s is computed from {%s}%s; the table allows %s%s" % (sink, ", ".join(sorted(data)) or "no schemars field", (" with keys %s" % sorted(o.lits)) if o.lits else "",
                                                                        " or ".join("{%s}" % (", ".join(sorted(a)) or "no schemars field") for a in allowed[sink]),
@@ -319,6 +326,26 @@ def r1_mapping(ctx):
     for adt, var in built:
         ctx.check(R, "delivered:%s::%s" % (adt[len(SINK_PREFIX):], var), (adt, var) in delivered,
                   "%s::%s built in the converter %s on the value returned by j2oas_schema" % (adt, var, "lies" if (adt, var) in delivered else "does NOT lie"), m.entry)
+
+
+def _key_on_guard(m, s, key):
+    """The key literal is not on the data slice (filter closure / map lookup) but on a predicate that guards the
+    write: `for (k, v) in map { if k.starts_with("x-") { out.insert(k, v) } }`.  Accepted when a bool-returning
+    call that takes the literal is established TRUE on every path to the write (path facts, so `!`, named flags
+    and early `continue` are all the same)."""
+    f, bb = s["fn"], s["bb"]
+    atoms = []
+    for sb in controllers(f, bb):
+        d = m.flow.slice(f, f.blocks[sb]["term"]["discr"])
+        for c, cb, ct in d.callees:
+            if ct["dest"]["p"] or f.local_ty(ct["dest"]["l"]) != "bool":
+                continue
+            if any(key in m.flow.origins(f, a).lits for a in ct["args"]):
+                atoms.append(("call", cb))
+    if not atoms:
+        return False
+    ok, cex = f.guarded_by(bb, atoms_true=atoms)
+    return ok
 
 
 _sf_cache = {}
@@ -489,17 +516,22 @@ def r3_single_entry(ctx):
             if slot:
                 placed += 1
                 _placed(ctx, R, fl, f, bb, slot[0], slot[1])
+        # components.schemas[..] = v : `map.insert(k, v)` or `map.entry(k).or_insert(v)` / `.or_insert_with(|| v)`
+        stores = []
         for bb, t in f.live_calls(r"indexmap::IndexMap::<K, V, S>::insert$"):
-            ro = fl.origins(f, t["args"][0])
-            if ("openapiv3::Components", "schemas") in ro.fields and len(t["args"]) >= 3:
-                placed += 1
-                src = "?"
-                site = fl.closure_site(f) if f.raw["kind"] == "Closure" else None
-                if site:
-                    for cbb, ct, k in fl.closure_receivers(site[0], site[2]):
-                        oo = fl.origins(site[0], ct["args"][0]) if k != 0 else Origins()
-                        src = "generator" if any(c.endswith("into_root_schema_for") for c in oo.calls) else "definitions"
-                _placed(ctx, R, fl, f, bb, "components.schemas<-%s" % src, t["args"][2])
+            if len(t["args"]) >= 3 and ("openapiv3::Components", "schemas") in fl.origins(f, t["args"][0]).fields:
+                stores.append((bb, t["args"][2]))
+        for bb, t in f.live_calls(r"indexmap::map::Entry::<'a, K, V>::(or_insert|or_insert_with|or_insert_with_key|insert_entry)$"):
+            if len(t["args"]) < 2:
+                continue
+            eo = fl.origins(f, t["args"][0])
+            if ("openapiv3::Components", "schemas") in eo.fields and any(c.endswith("IndexMap::<K, V, S>::entry") for c in eo.calls):
+                stores.append((bb, t["args"][1]))
+        for bb, vop in stores:
+            placed += 1
+            vo = fl.origins(f, vop)
+            src = "generator" if any(c.endswith("into_root_schema_for") for c in vo.calls) else "definitions"
+            _placed(ctx, R, fl, f, bb, "components.schemas<-%s" % src, vop)
     ctx.check(R, "placement-sites", placed >= 8, "places where a schema is stored in the document: %d" % placed, gen, nontrivial=False)
 
 
